@@ -237,7 +237,11 @@ def build_graph(rt, p, prefix="", warm=None):
     chain Graph(...) -> .bind -> .select -> .with_entrypoint (a history in which the parent graphs
     have been used before the derived graph is)."""
     nodes = [build_node(rt, nd, prefix) for nd in p["nodes"]]
-    g = Graph(nodes, name=p["name"])
+    if p.get("edges"):
+        # declared topology (Graph(nodes, edges=[(src, dst), ...])): name inference is switched off
+        g = Graph(nodes, edges=[tuple(e) for e in p["edges"]], name=p["name"])
+    else:
+        g = Graph(nodes, name=p["name"])
     if p["bound"]:
         if warm:
             warm(g)
